@@ -16,7 +16,7 @@ start=s.index('## 9. Independently seeded changes')
 end=s.index('## 10. As built')
 sec=f'''## 9. Independently seeded changes: which check catches which
 
-{len(rows)} changes were written by fresh sub-agents in twelve rounds (one agent per property and
+{len(rows)} changes were written by fresh sub-agents in thirteen rounds (one agent per property and
 round), each given only the text of its property, a scratch worktree of `/repo` and - from the
 second round on - one-line descriptions of the changes earlier agents had already delivered for
 that property (nothing from `/verif`). Every change kept here was confirmed by `seeded/confirm.sh`
@@ -34,7 +34,7 @@ of the property its author was given and caught by the check of the property tha
 ({', '.join(m['id'] for m in other)}, see its note); {len(uncovered)} not covered ({', '.join(m['id'] for m in uncovered)}). For round 3 the `missed-then-caught` verdicts were
 established by running the checks as they stood before the round (commit 1635b1a, built in a scratch
 worktree) and the current checks against the same patch: 12 of the 24 round-3 changes were missed by the
-earlier checks and all are caught now. Round 4 (14 changes) was first run against the checks exactly as they stood (8 missed), then against the strengthened checks (all caught); those runs used scratch copies of /verif and /repo (`REPO=` and the path dependency redirected) because a background thorough run was reading /repo. Round 5 (38 changes, all 19 properties, prompts steering towards interactions, boundary values, rarely used entry points and error paths) went the same way: 21 were missed by the check of their own property at first: 4 of those are caught by the check of the property that owns the behaviour (no change made), 16 led to strengthening and are caught now, 1 (C13-7) is not judged. Round 6 (38 changes; combinations of settings and features, second use of objects, edge values, legal-but-rare syntax): 14 missed at first by the check of their own property (2 of them caught by the owning property's check, which was strengthened as well), all caught after the strengthening listed. Round 7 (38 changes; backend- and feature-specific changes, shared helpers, off-by-ones at documented limits, leniency / performance patches, ownership changes): 23 missed at first by the check of their own property - 7 of them belong to another property's statement and are caught there without any change, 16 led to strengthening (among it a third harness flavour, the library built without compression) and are caught now. Round 8 (38 changes; arithmetic, std-trait implementations, real-network timing, lossy conversions): 17 missed at first by the check of their own property - 5 belong to another property's statement and are caught there, 12 led to strengthening and are caught now (the last of them, C14-13 - proof of key possession in the TLS handshake - needed a hand-built TLS server in the rustls flavour). Round 9 (38 changes; builder and body plumbing, error conversions, ordering of side effects in send(), url-crate positions, integer casts, iterator adaptors that stop early, build-profile dependence): 22 missed at first by the check of their own property - 5 belong to another property's statement and are caught there, 2 are not judged (C06-16: what follows a complete gzip member inside a frame; C19-15: chunked framing with bare LFs - both outside what the statements fix, see their notes), 15 led to strengthening and are caught now (among it a fourth harness flavour `plain`, built without debug assertions and overflow checks, because one change only misbehaves when `debug_assert!` is compiled out). Round 10 (38 changes; partial writes and flushes, BufReader capacity, feature combinations, drop order, small counters, URL components, laziness, Option/Result plumbing): 24 missed at first by the check of their own property - 4 belong to another property's statement and are caught there, 1 is not judged (C03-18: chunked next to an unusable Content-Length, a gray zone of C03 from the start), 19 led to strengthening and are caught now - among it two more harness flavours for other feature sets of the library (`zlib`, `rustlsnative`); the first run of C14 in the latter found genuine defect #17 of section 5. Patches that no longer applied to /repo after later `fix:` commits (12 of them) were re-based and re-confirmed with their authors' demonstrations (`patch.as-delivered.diff` keeps the delivered form). Round 11 (38 changes; Unicode case mapping where ASCII rules were meant, iteration order, boundary comparisons, TCP facts, unusual API usage, pairs of features, log statements whose arguments have effects): 18 missed at first by the check of their own property - 2 belong to another property's statement and are caught there, 16 led to strengthening and are caught now. Twelve of the 38 hide a side effect, a panic or a blocking read inside a `debug!` argument, which only runs when a logger is enabled: ten of those were caught at once by the ambient logging monitor of section 1.5 (a sink logger at trace level for half of all cases), the other two needed inputs the workload lacked (a long non-ASCII Location) or a scheduling window (a logger whose records take time). Round 12 (38 changes; one-token slips in rarely reached arms: `if let` for `while let`, `break` for `continue`, min/max, swapped arguments, contains for starts_with, copy-paste between neighbouring setters): 24 missed at first by the check of their own property - 10 belong to another property's statement and are caught there, 2 are not judged (C06-21 and C11-22: documented gray zones), 1 is not covered (C14-21: needs two TLS endpoints that share session state while presenting different certificates), 11 led to strengthening and are caught now. Where an agent's final summary
+earlier checks and all are caught now. Round 4 (14 changes) was first run against the checks exactly as they stood (8 missed), then against the strengthened checks (all caught); those runs used scratch copies of /verif and /repo (`REPO=` and the path dependency redirected) because a background thorough run was reading /repo. Round 5 (38 changes, all 19 properties, prompts steering towards interactions, boundary values, rarely used entry points and error paths) went the same way: 21 were missed by the check of their own property at first: 4 of those are caught by the check of the property that owns the behaviour (no change made), 16 led to strengthening and are caught now, 1 (C13-7) is not judged. Round 6 (38 changes; combinations of settings and features, second use of objects, edge values, legal-but-rare syntax): 14 missed at first by the check of their own property (2 of them caught by the owning property's check, which was strengthened as well), all caught after the strengthening listed. Round 7 (38 changes; backend- and feature-specific changes, shared helpers, off-by-ones at documented limits, leniency / performance patches, ownership changes): 23 missed at first by the check of their own property - 7 of them belong to another property's statement and are caught there without any change, 16 led to strengthening (among it a third harness flavour, the library built without compression) and are caught now. Round 8 (38 changes; arithmetic, std-trait implementations, real-network timing, lossy conversions): 17 missed at first by the check of their own property - 5 belong to another property's statement and are caught there, 12 led to strengthening and are caught now (the last of them, C14-13 - proof of key possession in the TLS handshake - needed a hand-built TLS server in the rustls flavour). Round 9 (38 changes; builder and body plumbing, error conversions, ordering of side effects in send(), url-crate positions, integer casts, iterator adaptors that stop early, build-profile dependence): 22 missed at first by the check of their own property - 5 belong to another property's statement and are caught there, 2 are not judged (C06-16: what follows a complete gzip member inside a frame; C19-15: chunked framing with bare LFs - both outside what the statements fix, see their notes), 15 led to strengthening and are caught now (among it a fourth harness flavour `plain`, built without debug assertions and overflow checks, because one change only misbehaves when `debug_assert!` is compiled out). Round 10 (38 changes; partial writes and flushes, BufReader capacity, feature combinations, drop order, small counters, URL components, laziness, Option/Result plumbing): 24 missed at first by the check of their own property - 4 belong to another property's statement and are caught there, 1 is not judged (C03-18: chunked next to an unusable Content-Length, a gray zone of C03 from the start), 19 led to strengthening and are caught now - among it two more harness flavours for other feature sets of the library (`zlib`, `rustlsnative`); the first run of C14 in the latter found genuine defect #17 of section 5. Patches that no longer applied to /repo after later `fix:` commits (12 of them) were re-based and re-confirmed with their authors' demonstrations (`patch.as-delivered.diff` keeps the delivered form). Round 11 (38 changes; Unicode case mapping where ASCII rules were meant, iteration order, boundary comparisons, TCP facts, unusual API usage, pairs of features, log statements whose arguments have effects): 18 missed at first by the check of their own property - 2 belong to another property's statement and are caught there, 16 led to strengthening and are caught now. Twelve of the 38 hide a side effect, a panic or a blocking read inside a `debug!` argument, which only runs when a logger is enabled: ten of those were caught at once by the ambient logging monitor of section 1.5 (a sink logger at trace level for half of all cases), the other two needed inputs the workload lacked (a long non-ASCII Location) or a scheduling window (a logger whose records take time). Round 12 (38 changes; one-token slips in rarely reached arms: `if let` for `while let`, `break` for `continue`, min/max, swapped arguments, contains for starts_with, copy-paste between neighbouring setters): 24 missed at first by the check of their own property - 10 belong to another property's statement and are caught there, 2 are not judged (C06-21 and C11-22: documented gray zones), 1 is not covered (C14-21: needs two TLS endpoints that share session state while presenting different certificates), 11 led to strengthening and are caught now. Round 13 (16 changes, for the eight properties whose checks involve neither real sockets nor clocks - C01, C02, C03, C04, C07, C15, C16, C18; the rarely used parts of the public API): 9 missed at first by the check of their own property - 2 belong to C03's statement and are caught there, 7 led to strengthening and are caught now. Where an agent's final summary
 gave me the idea before I ran its patch, and I widened the workload first, the `strengthening`
 note of that row says so. One further delivered change (TextReader staging buffer re-served after
 a failed refill) was made moot by `fix:` #14 of section 5, which it led to, and is not kept.
